@@ -232,6 +232,13 @@ def project(pseed: str, acc, ops_per_project, weights):
         evs = []
         for _k in range(rnd.randint(1, 3)):
             ev, kind = _scan(rnd, root, spec, acc)
+            if rnd.random() < 0.2:
+                # the scanned architecture goes through copy.deepcopy / a pickle round trip first (a cached fixture, a
+                # worker process): the copy is what is used from here on, and it is the same architecture
+                from .drive import copy_of
+
+                ev = copy_of(ev, rnd.choice(["deepcopy", "pickle"]))
+                kind += "+copied"
             st = graph_state(ev)
             if st is None:
                 acc.mark_inconclusive("e2e: cannot read the scanned architecture's graph")
